@@ -94,6 +94,12 @@ def known_key(text, stage, exc, info):
     """decidable description of the listed C15 findings"""
     import findings
     t = text.lstrip()
+    if stage == 'validate':
+        v = findings.msg_version(t)
+        names = [l.strip()[:3].upper() for l in t.split('\r')]
+        ex = json.load(open(vlib.VERIF + '/table_exclusions.json'))['segments'].get(v, [])
+        bad = [n for n in names if n in ex]
+        return ['T:%s:%s' % (v, b) for b in bad] or None
     if stage == 'parse' and exc in ('Crash:IndexError', 'Crash:TypeError', 'ValueError'):
         v = findings.msg_version(t)
         names = [l.strip()[:3] for l in t.split('\r')]
